@@ -152,3 +152,15 @@ prop(
     design_ref="§8 C15",
     assumptions=["read(write(v)) = v for the JSON text layer (exercised, not proved)"],
 )
+
+prop(
+    "C14",
+    module="Aquatic.Props.C14",
+    technique="Lean 4 proof (written requests parse back for every field value; zipped memchr splitter splits well-formed strings exactly; parameter order and unknown keys irrelevant; 20-byte url codec exact; reply writers = independent canonical bencode encoder) + differential check of the real writers / parsers / serde_bencode reader",
+    runs=[dict(harness="httpcodec", driver="httpcodec", quick=dict(cases=500), thorough=dict(cases=50000))],
+    nontrivial=["hq-announce+key", "hp-rejected", "hp-scrape", "warning", "peers6", "downloaded≠0", "hp-roundtrip"],
+    level_text="Theorems: an announce or scrape written by the library parses back to an equal request for every field value (all events, every byte value in identifiers, optional fields present/absent, key under its decidable well-formedness predicate); the model of the two zipped memchr iterators splits every well-formed k=v&k=v string into exactly its pairs; any permutation of parameters with distinct keys parses to the same result; unknown keys are ignored anywhere; percent-encoded and raw identifiers of exactly 20 single-byte characters decode exactly, 19 / 21 characters and characters above U+00FF are rejected; announce (with / without warning), scrape and failure replies are byte-identical to an independent canonical bencode encoder with sorted keys and 6 / 18-byte compact peers. The writers' literals and the parser's key table are regenerated from the source. Tie: real Request::write / parse_http_get_path / Response::write_bytes / parse_bytes on generated and hand-mangled inputs.",
+    level_note="Trusted (parameters of the model / exercised only): urlencoding::{encode,decode} for the optional key, httparse (path extraction), serde_bencode (client-side reader; replies are checked to parse back to an equal value with counters up to i64::MAX, bencode integers being signed 64-bit there), itoa.",
+    design_ref="§8 C14",
+    assumptions=["reply counters are at most i64::MAX (serde_bencode integers)", "the key field is read within the parser's documented 100-byte cap"],
+)
